@@ -37,15 +37,21 @@ def sh(cmd, cwd, e=env, **kw):
     return subprocess.run(cmd, cwd=cwd, env=e, stdout=subprocess.PIPE, stderr=subprocess.STDOUT, text=True, **kw)
 
 
+STABLE = set(json.load(open("/root/.vp/BASELINE.json")).get("stable_pass", []))
+
+
 def suite(cwd):
-    r = sh(["go", "test", "-vet=off", "-count=1", "-json", "-timeout", "300s"] + PKGS, cwd)
+    """one run of the repository's suite; a mutant is killed when a test of the pinned baseline's
+    stable set fails, or a package (other than netstate, whose integration test cannot run here)
+    fails as a whole (panic, time-out)"""
+    r = sh(["go", "test", "-vet=off", "-count=1", "-json", "-timeout", "60s"] + PKGS, cwd)
     bad = []
     for l in r.stdout.split("\n"):
         try:
             e = json.loads(l)
         except Exception:
             continue
-        if e.get("Action") == "fail" and e.get("Test") and not FLAKY.search(e["Test"]):
+        if e.get("Action") == "fail" and e.get("Test") and (e["Package"] + "::" + e["Test"]) in STABLE:
             bad.append(e["Package"].split("/")[-1] + "::" + e["Test"])
         if e.get("Action") == "fail" and not e.get("Test") and "netstate" not in e.get("Package", ""):
             bad.append("PKG " + e.get("Package", ""))
@@ -129,8 +135,6 @@ def worker(k):
                     res["status"] = "nocompile"
                 else:
                     fails = suite(clone)
-                    if fails:
-                        fails = sorted(set(fails) & set(suite(clone)))
                     if fails:
                         res["status"], res["tests"] = "killed-by-tests", fails[:5]
                     else:
